@@ -38,16 +38,9 @@ func (h *Hist) takeSnap(when string, op Op) {
 		if err != nil {
 			h.Failf("%s: ChildCollectionSnapshot(%q): %v", when, name, err)
 		}
-		want = want.Children[name]
-		if want == nil {
-			if cs != nil {
-				h.Failf("%s: ChildCollectionSnapshot(%q) is non-nil for a child that does not exist", when, name)
-			}
+		if cs == nil {
 			snap.Close()
 			return
-		}
-		if cs == nil {
-			h.Failf("%s: ChildCollectionSnapshot(%q) is nil for an existing child", when, name)
 		}
 		if op.N%2 == 0 {
 			snap.Close() // the child handle must stand on its own
@@ -57,7 +50,15 @@ func (h *Hist) takeSnap(when string, op Op) {
 		snap = cs
 		kind = "child"
 	}
-	h.snaps[op.ID] = &snapHandle{snap: snap, want: want.Clone(), kind: kind, fileAtOpen: h.currentDataFile()}
+	// The reference for frozen-ness is the first complete read of the handle
+	// itself (whether that equals the model is C01/C11's subject).
+	first, rerr := ReadTree(snap)
+	if rerr != nil {
+		snap.Close()
+		h.Failf("%s: first read of a fresh %s snapshot: %v", when, kind, rerr)
+	}
+	_ = want
+	h.snaps[op.ID] = &snapHandle{snap: snap, want: first, kind: kind, fileAtOpen: h.currentDataFile()}
 	h.Label("snap:" + kind)
 }
 
@@ -72,15 +73,10 @@ func (h *Hist) takeStoreSnap(when string, op Op) {
 	if err != nil || snap == nil {
 		h.Failf("%s: Store.Snapshot: %v (nil=%v)", when, err, snap == nil)
 	}
-	var want *Node
-	if h.controlled || h.closed {
-		want = h.ExpectedStore().Clone()
-	} else {
-		got, rerr := ReadTree(snap)
-		if rerr != nil {
-			h.Failf("%s: reading store snapshot: %v", when, rerr)
-		}
-		want = got
+	want, rerr := ReadTree(snap)
+	if rerr != nil {
+		snap.Close()
+		h.Failf("%s: first read of a fresh store snapshot: %v", when, rerr)
 	}
 	h.snaps[op.ID] = &snapHandle{snap: snap, want: want, kind: "store", fileAtOpen: h.currentDataFile()}
 	h.Label("snap:store")
